@@ -59,7 +59,25 @@ def children(t):
         return [((1, i), p, []) for i, p in enumerate(t[1]) if not isinstance(p, str)]
     if k == "std":
         return [((2, i), a, []) for i, a in enumerate(t[2])]
-    if k == "lets":      # ("lets", rec?, [(x, e)], body): multi-binding let / let rec (beyond the Coq fragment)
+    if k == "ty":        # ("ty", "Number"): a builtin type used as a value
+        return []
+    if k in ("tyarr", "tydict"):     # Array C / {_ | C} with an arbitrary contract expression C
+        return [((1,), t[1], [])]
+    if k == "tyfun":
+        return [((1,), t[1], []), ((2,), t[2], [])]
+    if k == "tyrec":     # ("tyrec", [(f, C)]): {f | C, ..}
+        return [((1, i, 1), c, []) for i, (f, c) in enumerate(t[1])]
+    if k == "annx":      # ("annx", e, C): e | C with C an arbitrary expression
+        return [((1,), t[1], []), ((2,), t[2], [])]
+    if k == "recann":    # ("recann", [(f, C or None, e)]): {f | C = e, ...}; annotations see the fields
+        ns = [f for f, _, _ in t[1]]
+        res = []
+        for i, (f, c, e) in enumerate(t[1]):
+            if c is not None:
+                res.append(((1, i, 1), c, ns))
+            res.append(((1, i, 2), e, ns))
+        return res
+    if k == "lets":      # ("lets", rec?, [(x, e)], body): multi-binding let / let rec
         ns = [x for x, _ in t[2]]
         res = [((2, i, 1), e, ns if t[1] else []) for i, (x, e) in enumerate(t[2])]
         return res + [((3,), t[3], ns)]
@@ -97,7 +115,30 @@ def fvs(t):
 
 
 def is_base(t):
-    return t[0] in BASE and all(is_base(c) for _, c, _ in children(t))
+    """In the fragment of the Coq models (multi-binding blocks are desugared by `sexp`)."""
+    return (t[0] in BASE or t[0] == "lets") and all(is_base(c) for _, c, _ in children(t))
+
+
+class Capture(Exception):
+    pass
+
+
+def subst_vars(t, m):
+    """Capture-avoiding simultaneous substitution of the free variables in dict `m`; raises
+    Capture when a binder of `t` would capture a free variable of a substituted term."""
+    if not m:
+        return t
+    if t[0] == "var":
+        return m.get(t[1], t)
+    for k, c, bs in children(t):
+        m2 = {x: e for x, e in m.items() if x not in bs}
+        if bs and m2:
+            fc = fvs(c)
+            for x, e in m2.items():
+                if x in fc and fvs(e) & set(bs):
+                    raise Capture()
+        t = set_in(t, k, subst_vars(c, m2))
+    return t
 
 
 def positions(t, key=(), chain=()):
@@ -142,6 +183,25 @@ def sexp(t):
         return "(get %s %s)" % (sexp(t[1]), t[2])
     if k == "fail":
         return "(fail)"
+    if k == "lets" and not t[1]:
+        # parallel block: ((fun x1 => fun x2 => body) e1) e2 -- right-hand sides in the outer scope
+        out = sexp(t[3])
+        for x, _ in reversed(t[2]):
+            out = "(lam %s %s)" % (x, out)
+        for _, e in t[2]:
+            out = "(app %s %s)" % (out, sexp(e))
+        return out
+    if k == "lets" and t[1]:
+        # recursive block = a recursive record whose fields are the bindings
+        names = [x for x, _ in t[2]]
+        avoid = fvs(t[3]) | set(names)
+        for _, e in t[2]:
+            avoid |= fvs(e)
+        r = "rr"
+        while r in avoid:
+            r += "r"
+        body = subst_vars(t[3], {x: ("get", ("var", r), x) for x in names})
+        return "(let %s %s %s)" % (r, sexp(("rec", list(t[2]))), sexp(body))
     return "(unsupported-%s)" % k
 
 
@@ -152,6 +212,13 @@ def nickel(t, imp):
     """imp: file key -> absolute path"""
     k = t[0]
     n = lambda x: nickel(x, imp)  # noqa: E731
+
+    def nc(x):
+        # contract position: the parser rejects constants there ("illegal type"); a let keeps
+        # the value and moves the decision to the evaluator
+        if x[0] in ("num", "str", "bool", "arr", "enum", "interp"):
+            return "(let q__ = %s in q__)" % n(x)
+        return n(x)
     if k == "var":
         return t[1]
     if k == "lam":
@@ -203,6 +270,20 @@ def nickel(t, imp):
         return "(%s |> match { %s })" % (n(t[1]), ", ".join("%s => %s" % (pat(p), n(b)) for p, b in t[2]))
     if k == "ann":
         return "(%s | %s)" % (n(t[1]), t[2])
+    if k == "annx":
+        return "(%s | %s)" % (n(t[1]), nc(t[2]))
+    if k == "ty":
+        return t[1]
+    if k == "tyarr":
+        return "(Array %s)" % nc(t[1])
+    if k == "tydict":
+        return "{_ | %s}" % nc(t[1])
+    if k == "tyfun":
+        return "(%s -> %s)" % (nc(t[1]), nc(t[2]))
+    if k == "tyrec":
+        return "{%s}" % ", ".join(["%s | %s" % (f, nc(c)) for f, c in t[1]] + [".."])
+    if k == "recann":
+        return "{%s}" % ", ".join("%s%s = %s" % (f, "" if c is None else " | " + nc(c), n(e)) for f, c, e in t[1])
     if k == "merge":
         return "(%s & %s)" % (n(t[1]), n(t[2]))
     if k == "eq":
@@ -242,8 +323,11 @@ class Gen:
         if c < 82:
             fs = self.r.shuffle(FIELDS)[: self.r.range(1, 3)]
             return ("rec", tuple((f, self.rand_type(d - 1, False)) for f in sorted(fs)))
-        if c < 90 and self.ext:
+        if c < 88 and self.ext:
             return "enum"
+        if allow_fun and self.ext and c < 94:
+            # a contract for values of some type, used as a first-class value
+            return ("ctr", self.rand_type(max(d - 1, 1), False))
         if allow_fun:
             return ("fun", self.rand_type(d - 1, False), self.rand_type(d - 1, False))
         return "num"
@@ -285,7 +369,38 @@ class Gen:
         if ty[0] == "fun":
             x = self.fresh()
             return ("lam", x, self.gen(ty[2], sc + [(x, ty[1])], d - 1))
+        if ty[0] == "ctr":
+            return self.ctr_lit(ty[1], sc, d)
         raise ValueError(ty)
+
+    def ctr_lit(self, vt, sc, d):
+        """A contract (type literal or custom contract) accepting the values of type `vt`; inner
+        contracts are arbitrary expressions, so the type value can have free variables."""
+        r = self.r
+        sub = lambda t: self.gen(("ctr", t), sc, d - 1)  # noqa: E731
+        if r.chance(1, 6):
+            return ("ty", "Dyn")
+        if vt == "num":
+            if r.chance(1, 3):
+                v = self.fresh(unique=True)
+                return ("std", "std.contract.from_predicate", [("lam", v, ("bin", "lt", ("var", v), ("num", 1000)))])
+            return ("ty", "Number")
+        if vt == "str":
+            return ("ty", "String")
+        if vt == "bool":
+            return ("ty", "Bool")
+        if vt == "enum":
+            return ("ty", "Dyn")
+        if vt[0] == "arr":
+            return ("tyarr", sub(vt[1]))
+        if vt[0] == "rec":
+            ts = {t for _, t in vt[1]}
+            if len(ts) == 1 and r.chance(1, 2):
+                return ("tydict", sub(vt[1][0][1]))
+            return ("tyrec", [(f, sub(t)) for f, t in vt[1]])
+        if vt[0] == "fun":
+            return ("tyfun", sub(vt[1]), sub(vt[2]))
+        return ("ty", "Dyn")
 
     def rec_lit(self, ty, sc, d):
         """Record literal of the given type; extra fields (some of them failing and never
@@ -305,6 +420,14 @@ class Gen:
             # dependencies, so evaluation terminates); the names of all fields shadow outer ones
             visible = [(g, tg) for (g, tg) in sc if g not in dict(allf)] + allf[:i]
             fields.append((f, self.gen(t, visible, d - 1)))
+        if self.ext and r.chance(1, 4):
+            # field annotations; a contract-valued field may be shared by several annotations
+            outer = [(g, tg) for (g, tg) in sc if g not in dict(allf)]
+            out = []
+            for f, e in fields:
+                t = dict(allf)[f]
+                out.append((f, self.gen(("ctr", t), outer, d - 1) if r.chance(1, 2) else None, e))
+            return ("recann", out)
         return ("rec", fields)
 
     def vars_of(self, ty, sc):
@@ -326,12 +449,10 @@ class Gen:
             return r.choice(vs)
         if d <= 0:
             return r.choice(vs) if vs and r.chance(1, 2) else self.lit(ty, sc, 0)
-        if self.ext and r.chance(1, 12):
-            # multi-binding let: the bound expressions see the outer scope, not each other
-            x, y = self.fresh(), self.fresh(unique=True)
-            t1, t2 = self.rand_type(1), self.rand_type(1)
-            return ("lets", False, [(x, self.gen(t1, sc, d - 1)), (y, self.gen(t2, sc, d - 1))],
-                    self.gen(ty, sc + [(x, t1), (y, t2)], d - 1))
+        if r.chance(1, 11):
+            return self.block(ty, sc, d)
+        if r.chance(1, 7 if self.ext else 12):
+            return self.share_probe(ty, sc, d)
         if self.ext and ty == "bool" and r.chance(1, 6):
             # mutual recursion through a two-binding let rec
             ev, od, nn = self.fresh(unique=True), self.fresh(unique=True), self.fresh(unique=True)
@@ -341,6 +462,8 @@ class Gen:
                     [(ev, ("lam", nn, ("if", zero, ("bool", True), ("app", ("var", od), dec)))),
                      (od, ("lam", nn, ("if", zero, ("bool", False), ("app", ("var", ev), dec))))],
                     ("app", ("var", r.choice([ev, od])), ("num", r.range(0, 5))))
+        if self.ext and not (isinstance(ty, tuple) and ty[0] == "ctr") and r.chance(1, 9):
+            return ("annx", self.gen(ty, sc, d - 1), self.gen(("ctr", ty), sc, d - 1))
         if self.ext and r.chance(2, 5):
             return self.by_type(ty, sc, d)
         c = r.below(100)
@@ -401,6 +524,166 @@ class Gen:
                     ("bin", "add", ("app", ("var", f), ("bin", "sub", ("var", n), ("num", 1))), step))
             return ("letrec", f, ("lam", n, body), ("app", ("var", f), ("num", r.range(0, 4))))
         return self.by_type(ty, sc, d)
+
+    def last_vars(self, sc):
+        last = {}
+        for x, t in sc:
+            last[x] = t
+        return last
+
+    def block(self, ty, sc, d):
+        """Multi-binding let / let rec blocks.  Names of the block shadow outer variables on
+        purpose, and right-hand sides are often bare aliases: in a parallel block they denote the
+        OUTER variable even when the block rebinds the name; in a recursive block a reference to
+        a name defined later in the block denotes the block's binding, not an outer one."""
+        r = self.r
+        if r.chance(1, 2) and not (isinstance(ty, tuple) and ty[0] == "ctr"):
+            # scope probe for blocks: the block rebinds a name that is also bound outside, and
+            # another binding of the block is a bare alias of that name
+            x, u = self.fresh(), self.fresh(unique=True)
+            a, b2 = self.gen(ty, sc, d - 2), self.gen(ty, sc, d - 2)
+            rec = r.chance(1, 2)
+            binds = [(u, ("var", x)), (x, b2)] if rec else [(x, b2), (u, ("var", x))]
+            if r.chance(1, 2):
+                z, tz = self.fresh(unique=True), self.rand_type(0)
+                binds.insert(r.below(3), (z, self.gen(tz, sc, d - 2)))
+            inner = sc + [(x, ty), (u, ty)]
+            body = ("var", u) if r.chance(2, 3) else self.gen(ty, inner, d - 2)
+            return ("let", x, a, ("lets", rec, binds, body))
+        outer = self.last_vars(sc)
+        n = r.range(2, 3)
+        rec = r.chance(1, 3)
+        names, types = [], []
+        for i in range(n):
+            cands = [x for x in sorted(outer) if x not in names and x not in FIELDS]
+            if cands and r.chance(1, 2):
+                x = r.choice(cands)
+                # mostly keep the type of the shadowed variable, so that aliases type-check
+                t = outer[x] if r.chance(3, 4) else self.rand_type(1, False)
+            else:
+                x, t = self.fresh(), self.rand_type(1, False)
+                if x in names:
+                    x = self.fresh(unique=True)
+            names.append(x)
+            types.append(t)
+        binds = []
+        for i, (x, t) in enumerate(zip(names, types)):
+            if not rec:
+                al = [y for y, ty_ in sorted(outer.items()) if ty_ == t]
+                pref = [y for y in al if y in names[:i]] or [y for y in al if y in names]
+                if al and r.chance(1, 2):
+                    binds.append((x, ("var", r.choice(pref) if pref and r.chance(2, 3) else r.choice(al))))
+                else:
+                    binds.append((x, self.gen(t, sc, d - 1)))
+            else:
+                # acyclic by construction: binding i may mention the bindings after it
+                later = [(y, ty_) for y, ty_ in list(zip(names, types))[i + 1:]]
+                vis = [(y, ty_) for y, ty_ in sc if y not in names] + later
+                al = [y for y, ty_ in later if ty_ == t]
+                if al and r.chance(1, 2):
+                    binds.append((x, ("var", r.choice(al))))
+                else:
+                    binds.append((x, self.gen(t, vis, d - 1)))
+        inner = sc + list(zip(names, types))
+        uses = [("var", x) for x, t in zip(names, types) if t == ty]
+        body = self.gen(ty, inner, d - 1)
+        if uses and r.chance(1, 2):
+            body = r.choice(uses)
+        return ("lets", rec, binds, body)
+
+    def nonwhnf(self, t1, sc, d):
+        """An expression of type t1 that is not a weak head normal form (so that binding it
+        allocates a thunk that is updated), whose value mentions a locally bound variable."""
+        r = self.r
+        k, t0 = self.fresh(unique=True), self.rand_type(0)
+        if r.chance(3, 4):
+            # make it likely that the value mentions k: bind something of a component type
+            core_t = t1[1] if isinstance(t1, tuple) and t1[0] == "ctr" else t1
+            wrap = (lambda t: ("ctr", t)) if isinstance(t1, tuple) and t1[0] == "ctr" else (lambda t: t)
+            if isinstance(core_t, tuple) and core_t[0] == "arr":
+                t0 = wrap(core_t[1])
+            elif isinstance(core_t, tuple) and core_t[0] == "rec":
+                t0 = wrap(r.choice(core_t[1])[1])
+            elif isinstance(core_t, tuple) and core_t[0] == "fun":
+                t0 = wrap(core_t[2])
+            else:
+                t0 = t1
+        val = self.lit(t1, sc + [(k, t0)], max(d - 1, 1))
+        if isinstance(t1, tuple) and t1[0] == "ctr" and isinstance(t1[1], tuple) and t0 != t1 and r.chance(3, 4):
+            # a type value with a free variable: Array k, {_ | k}, {f | k, ..}, k -> k
+            ct = t1[1]
+            if ct[0] == "arr":
+                val = ("tyarr", ("var", k))
+            elif ct[0] == "rec":
+                f0 = [f for f, t in ct[1] if ("ctr", t) == t0]
+                if len({t for _, t in ct[1]}) == 1 and r.chance(1, 2):
+                    val = ("tydict", ("var", k))
+                elif f0:
+                    val = ("tyrec", [(f0[0], ("var", k))])
+            elif ct[0] == "fun" and ("ctr", ct[2]) == t0:
+                val = ("tyfun", ("ty", "Dyn"), ("var", k))
+        bound = self.gen(t0, sc, d - 2)
+        which = r.below(5)
+        if which == 0:
+            return ("let", k, bound, val)
+        if which == 1:
+            return ("app", ("lam", k, val), bound)
+        if which == 2:
+            return ("if", ("bool", True), ("let", k, bound, val), self.lit(t1, sc, 1))
+        if which == 3:
+            return ("get", ("rec", [("q", ("let", k, bound, val))]), "q")
+        return ("at", ("num", 0), ("arr", [("let", k, bound, val)]))
+
+    def observe(self, v, t1, sc, d):
+        """An expression that demands the variable v of type t1 (deeply once exported)."""
+        r = self.r
+        if isinstance(t1, tuple) and t1[0] == "ctr":
+            return ("annx", self.gen(t1[1], sc, d - 1), ("var", v))
+        if isinstance(t1, tuple) and t1[0] == "fun":
+            return ("app", ("var", v), self.gen(t1[1], sc, d - 1))
+        if isinstance(t1, tuple) and t1[0] == "rec" and r.chance(1, 2):
+            return ("get", ("var", v), r.choice(t1[1])[0])
+        return ("var", v)
+
+    def share_probe(self, ty, sc, d):
+        """A value flowing twice through one binding form (let, function argument, record field,
+        imported file): the second use reads what the first use left in the thunk."""
+        r = self.r
+        t1 = self.rand_type(1)
+        if self.ext and r.chance(1, 2):
+            # contracts / types as first-class values (they carry an environment of their own)
+            fs = r.shuffle(FIELDS)[: r.range(1, 2)]
+            t1 = ("ctr", r.choice([("arr", self.rand_type(0)), ("arr", self.rand_type(0)),
+                                   ("rec", tuple((f, self.rand_type(0)) for f in sorted(fs))),
+                                   self.rand_type(1, False)]))
+        if isinstance(t1, tuple) and t1[0] == "fun" and t1[2] != "num" and r.chance(1, 2):
+            t1 = ("fun", t1[1], "num")
+        v = self.fresh(unique=True)
+        form = r.below(4)
+        e = self.nonwhnf(t1, sc if form != 3 else [], d)
+        sc2 = sc + [(v, t1)]
+        uses = [self.observe(v, t1, sc2, d) for _ in range(r.range(2, 3))]
+        rest = self.gen(ty, sc2, d - 2)
+        if self.ext:
+            body = rest
+            for u in uses:
+                body = ("std", "std.deep_seq", [u, body])
+        else:
+            body = rest
+            for u in uses:
+                body = ("seq", u, body)
+        if form == 0:
+            return ("let", v, e, body)
+        if form == 1:
+            return ("app", ("lam", v, body), e)
+        if form == 2:
+            # the binding is a record field, the uses are sibling fields
+            f = "s" + v
+            body2 = subst_vars(body, {v: ("var", f)})
+            return ("get", ("rec", [(f, e), ("r", body2)]), "r")
+        key = "f%d" % len(self.files)
+        self.files[key] = e
+        return subst_vars(body, {v: ("import", key)})
 
     def scope_probe(self, ty, sc, d):
         """Closures whose body mentions a variable of the defining scope, called where that name
@@ -563,13 +846,52 @@ def rewrites_at(t, key, sub, chain, rng, fresh, files):
         rel = key[len(akey):]
         a = get_in(t, akey)
         a2 = set_in(a, rel, ("var", v))
+        tag = "-top" if akey == () else "-inner" if akey != key else "-here"
+        if sub[0] != "var" and rng.chance(1, 2):
+            # abstract every occurrence of the sub-expression below the ancestor that means the
+            # same thing there (none of its free variables rebound on the way): the bound value is
+            # then demanded several times through one thunk
+            n_occ = 0
+            for k2, s2, ch2 in list(positions(a)):
+                if s2 == sub and not (fv & {b for _, bs in ch2 for b in bs}):
+                    try:
+                        a2 = set_in(a2, k2, ("var", v))
+                        n_occ += 1
+                    except (IndexError, TypeError):
+                        pass
+            if n_occ > 1:
+                tag += "-all"
         new = ("let", v, sub, a2) if kind == "let" else ("app", ("lam", v, a2), sub)
-        out.append((kind + ("-top" if akey == () else "-inner" if akey != key else "-here"), set_in(t, akey, new), {}))
+        out.append((kind + tag, set_in(t, akey, new), {}))
     out.append(("field", set_in(t, key, ("get", ("rec", [(v, sub)]), v)), {}))
     out.append(("elem", set_in(t, key, ("at", ("num", 0), ("arr", [sub]))), {}))
     if not fv:
         out.append(("import", set_in(t, key, ("import", v)), {v: sub}))
     return out
+
+
+def inline_at(t, key, sub, files):
+    """The laws read from right to left: remove a binding form by substituting what it binds.
+    Returns (kind, new program) or None when not applicable / not capture-free."""
+    try:
+        k = sub[0]
+        if k == "let":
+            return "inline-let", set_in(t, key, subst_vars(sub[3], {sub[1]: sub[2]}))
+        if k == "app" and sub[1][0] == "lam":
+            return "inline-beta", set_in(t, key, subst_vars(sub[1][2], {sub[1][1]: sub[2]}))
+        if k == "lets" and not sub[1]:
+            return "inline-block", set_in(t, key, subst_vars(sub[3], dict(sub[2])))
+        if k == "import" and sub[1] in files and files[sub[1]] is not None:
+            return "inline-import", set_in(t, key, files[sub[1]])
+        if k == "get" and sub[1][0] == "rec":
+            fs = dict(sub[1][1])
+            if sub[2] in fs and len(fs) == len(sub[1][1]) and not (fvs(fs[sub[2]]) & set(fs)):
+                return "inline-field", set_in(t, key, fs[sub[2]])
+        if k == "at" and sub[1][0] == "num" and sub[2][0] == "arr" and 0 <= sub[1][1] < len(sub[2][1]):
+            return "inline-elem", set_in(t, key, sub[2][1][sub[1][1]])
+    except Capture:
+        return None
+    return None
 
 
 # --------------------------------------------------------------------------- outcome handling
@@ -723,7 +1045,8 @@ def corpus_cases():
 
 def to_tuple(x):
     """json -> tree (lists that are nodes become tuples; child lists stay lists)"""
-    if isinstance(x, list) and x and isinstance(x[0], str) and x[0] in BASE | {"interp", "enum", "match", "ann", "merge", "eq", "std", "ptag", "pany", "prec", "lets"}:
+    if isinstance(x, list) and x and isinstance(x[0], str) and x[0] in BASE | {"interp", "enum", "match", "ann", "merge", "eq", "std", "ptag", "pany", "prec", "lets",
+                                                                              "ty", "tyarr", "tydict", "tyfun", "tyrec", "annx", "recann"}:
         k = x[0]
         if k == "arr":
             return ("arr", [to_tuple(e) for e in x[1]])
@@ -739,6 +1062,10 @@ def to_tuple(x):
             return ("prec", tuple(x[1]))
         if k == "lets":
             return ("lets", bool(x[1]), [(y, to_tuple(e)) for y, e in x[2]], to_tuple(x[3]))
+        if k == "tyrec":
+            return ("tyrec", [(f, to_tuple(c)) for f, c in x[1]])
+        if k == "recann":
+            return ("recann", [(f, None if c is None else to_tuple(c), to_tuple(e)) for f, c, e in x[1]])
         return tuple([k] + [to_tuple(a) if isinstance(a, list) else a for a in x[1:]])
     return x
 
@@ -771,6 +1098,20 @@ def run_programs(ck, progs, scratch, label):
                 if allfiles_base and is_base(sub) and rng.chance(1, 3):
                     mh = b.add_model("name", new, fl)
                 e["rw"].append((kind, h, new, fl, mh))
+        # the same laws from right to left, at sampled binding positions
+        binders = [(k2, s2) for k2, s2, _ in pos
+                   if s2[0] in ("let", "lets", "import") or (s2[0] == "app" and s2[1][0] == "lam")
+                   or (s2[0] == "get" and s2[1][0] == "rec") or (s2[0] == "at" and s2[2][0] == "arr")]
+        for key, sub in rng.shuffle(binders)[: p.get("ninline", 4)]:
+            r_in = inline_at(t, key, sub, files)
+            if r_in is None:
+                continue
+            kind, new = r_in
+            h = b.add_rust(new, files)
+            mh = None
+            if allfiles_base and is_base(new) and rng.chance(1, 3):
+                mh = b.add_model("name", new, files)
+            e["rw"].append((kind, h, new, dict(files), mh))
         # seq: the program after a value v
         vg = Gen(rng.fork(), ext=not allfiles_base)
         v = vg.gen(vg.rand_type(1), [], 2)
@@ -788,8 +1129,9 @@ def run_programs(ck, progs, scratch, label):
             lit = get_in(t, rk)
             bad = rng.choice([("fail",), ("bin", "add", ("num", 1), ("str", "a")), ("lam", "q", ("var", "q")),
                               ("get", ("rec", [("a", ("num", 1))]), "zz")])
-            t2 = set_in(t, rk, ("rec", lit[1] + [("zzbad", bad)])) if rng.chance(1, 2) else \
-                set_in(t, rk, ("rec", [("zzbad", bad)] + lit[1]))
+            extra = [("zzbad", None, bad)] if lit[0] == "recann" else [("zzbad", bad)]
+            t2 = set_in(t, rk, (lit[0], lit[1] + extra)) if rng.chance(1, 2) else \
+                set_in(t, rk, (lit[0], extra + lit[1]))
             h2 = b.add_rust(t2, files, field=ps)
             h3 = b.add_rust(t2, files)
             mh = None
@@ -844,7 +1186,7 @@ def run_programs(ck, progs, scratch, label):
                 continue
             if r != o:
                 viol = True
-                ck.violation("rewrite:%s" % kind.split("-")[0],
+                ck.violation("rewrite:%s" % ("-".join(kind.split("-")[:2]) if kind.startswith("inline") else kind.split("-")[0]),
                              "nkeval(p) = %s but nkeval(%s-rewrite p) = %s" % (o[:80], kind, r[:80]),
                              dict(rep, rewrite=kind, rewritten=b.rust[h].split("\t", 1)[1], before=o, after=r,
                                   how_to_replay="./verif check C09 --replay <this file>", rewritten_tree=new, rewritten_files_tree=fl))
@@ -973,8 +1315,15 @@ def run(ck):
                            "interpolation, contract annotations, merges, ==, std.array.{map,fold_left,length,concat}, std.record.fields, "
                            "std.string.{length,uppercase}) with injected failing / ill-typed / diverging sub-expressions; every sampled "
                            "position is abstracted by let, beta (binder at a random capture-free ancestor), {f = e}.f, std.array.at 0 [e], "
-                           "import (closed sub-expressions), plus std.seq v p, plus field=<path> vs full export with and without an added "
-                           "failing sibling; non-trivial = program size >= 6; distinct by source text")
+                           "import (closed sub-expressions) -- for let/beta also at ALL equal occurrences below the ancestor --, and the same laws "
+                           "from right to left at sampled binding positions (inline a let, a beta-redex, a parallel let block, an import, "
+                           "{..}.f and std.array.at k [..] on literals; capture-checked), plus std.seq v p, plus field=<path> vs full export "
+                           "with and without an added failing sibling. Sharing probes: a non-WHNF expression whose value mentions a local "
+                           "variable (closures, containers, and in the extended stream first-class contracts/types Array k, {_ | k}, {f | k, ..}, "
+                           "k -> k, custom contracts) bound by let / function argument / record field / imported file and demanded two or "
+                           "three times; multi-binding let and let rec blocks with bare aliases and names shadowing outer variables (in the "
+                           "model fragment through desugaring: parallel block = nested beta, recursive block = recursive record); "
+                           "non-trivial = program size >= 6; distinct by source text")
     ck.coverage["partial"] = ("let/beta laws with the binder outermost (the other rewrites under arbitrary contexts); "
                               "contracts, merges, match, interpolation and std calls are outside the Coq fragment (direct oracle only)")
     ck.trusted += ["extraction: ExtrOcamlBasic + ExtrOcamlNativeString", "harness bin nkeval (harness/src/eval.rs)",
